@@ -4,6 +4,8 @@ package main
 
 import (
 	"bytes"
+	"crypto/sha256"
+	"encoding/hex"
 	"fmt"
 	"os"
 	osexec "os/exec"
@@ -16,10 +18,12 @@ import (
 
 func init() {
 	h.Register(&h.Prop{ID: "C01", Gen: genC01, Exec: withBoc(map[string]h.ExecFn{
-		"boc.emit":   exBocEmit,
-		"go.writer":  goWriter,
-		"boc.header": exBocHeader,
-		"go.reader":  goReader,
+		"boc.emit":      exBocEmit,
+		"go.writer":     goWriter,
+		"boc.header":    exBocHeader,
+		"boc.order":     exBocOrder,
+		"boc.serialize": exBocSerialize,
+		"go.reader":     goReader,
 	})})
 }
 
@@ -146,6 +150,36 @@ func exBocHeader(a []string) string {
 			return "err"
 		}
 		out = append(out, fmt.Sprintf("%d,%d", bs[4]&7, bs[5]))
+	}
+	return strings.Join(out, " ")
+}
+
+// boc.order <table> -> canonical ids of the cells in the order Go stored them, read off Go's own bytes by the verified
+// Lean reader (op boc.rows). Exact tie of the model of importCell / reorderCells / revisit.
+func exBocOrder(a []string) string {
+	root := h.BuildCells(h.ParseTable(a[0]))[0]
+	bs, err := root.ToBoc()
+	if err != nil {
+		return "err"
+	}
+	ans, merr := modelBatch([]string{"boc.rows " + h.Hex(bs)})
+	if merr != nil {
+		return "model-unavailable"
+	}
+	return ans[0]
+}
+
+// boc.serialize <table> -> length.sha256[0:8] of Go's bytes for the 8 option sets (serializeBocModel byte for byte)
+func exBocSerialize(a []string) string {
+	root := h.BuildCells(h.ParseTable(a[0]))[0]
+	out := []string{"ok"}
+	for o := 0; o < 8; o++ {
+		bs, err := root.ToBocCustom(o&4 != 0, o&2 != 0, o&1 != 0, 0)
+		if err != nil {
+			return "err"
+		}
+		sum := sha256.Sum256(bs)
+		out = append(out, fmt.Sprintf("%d.%s", len(bs), hex.EncodeToString(sum[:8])))
 	}
 	return strings.Join(out, " ")
 }
@@ -381,6 +415,8 @@ func emitWriterCase(g *h.G, t []h.Row, tag string) {
 	if tableDepth(t) <= 1024 {
 		queue("boc.header", ts)
 	}
+	queue("boc.order", ts)
+	queue("boc.serialize", ts)
 }
 
 func emitReaderCase(g *h.G, t []h.Row, roots []int, p h.EmitParams) {
